@@ -595,7 +595,7 @@ def run(chk):
         "semantics assigns to the same body. A macro whose expansion does not implement the stated contract in some context "
         "shows up as a differing event, return code or successor state.")
     chk.rule("V1", "for every generated body (PT_BEGIN variant) the compiled control automaton and the specification automaton are bisimilar from the initial state")
-    chk.rule("V2", "the same for bodies opened with PT_BEGIN_FIBRE (state kept in fibre_t.priv)")
+    chk.rule("V2", "the same for bodies opened with PT_BEGIN_FIBRE (state kept in fibre_t.priv of the descriptor passed in, and only there)")
     chk.assumptions += ["scope of the property: one blocking macro per line, none inside a user switch, PT_CHILD_OK consulted before the "
                         "next blocking point, no re-invocation after exit without PT_INIT (the generator stays inside this scope)",
                         "ev/cond/child are uninterpreted: cond() in {0, non-zero}, child() in the four pt_state_t values",
@@ -603,6 +603,82 @@ def run(chk):
     chk.rule("V3", "PT_WAIT_UNTIL / PT_EXIT_ON / PT_FAIL_ON test the user's condition against zero in its own type (no narrowing conversion on the way)")
     run_rules(chk, progs)
     check_condition_transparency(chk)
+
+
+def check_state_cell(chk, src, cfg="default"):
+    """V2.state-cell: a body opened with PT_BEGIN_FIBRE(f) keeps its resume point in f - the descriptor it was called with -
+    and nowhere else.  Decided on the first fibre witness as a caller sees it (the helpers of fibre.h and fibre.c inlined):
+    the pointer whose i16 content the body switches on must derive, through address arithmetic only, from the argument f.  A
+    value read from a mutable object with static storage in that derivation (the scheduler's idea of the current fibre) makes the
+    resume point depend on who was dispatched last: an entry point polled directly (console_process) resumes from, and
+    overwrites, another fibre's state."""
+    try:
+        m = build.api_view("c08_cell.c", src, ["librfn/fibre.c"], ["w_0"], cfg)
+    except AnalysisError as e:
+        chk.unknown("V2.state-cell", "PT_BEGIN_FIBRE", "api view does not build: %s" % str(e)[-200:])
+        return
+    fn = m.functions.get("w_0")
+    leaves = set()
+    seen = set()
+    sw = [blk.term for blk in fn.order if blk.term is not None and blk.term.op == "switch"]
+    if not sw:
+        chk.unknown("V2.state-cell", "PT_BEGIN_FIBRE", "no switch on the saved state in the witness")
+        return
+
+    def walk(v, through_load):
+        if v.k == "arg":
+            leaves.add(("arg", v.name))
+            return
+        if v.k in ("global", "cexpr"):
+            g = v
+            while g.k == "cexpr":
+                g = g.cexpr_ops()[0]
+            gd = m.globals.get(g.name) if g.k == "global" else None
+            leaves.add(("static", g.name if g.k == "global" else "?", bool(gd and gd.get("const"))))
+            return
+        if v.k != "inst" or v.inst is None:
+            if v.k not in ("int", "null", "undef"):
+                leaves.add(("other", v.k))
+            return
+        i = v.inst
+        if i.name in seen:
+            return
+        seen.add(i.name)
+        if i.op in ("getelementptr", "bitcast", "zext", "sext", "trunc", "freeze"):
+            walk(i.ops[0], through_load)
+        elif i.op == "phi":
+            for x, b in i.incoming:
+                walk(x, through_load)
+        elif i.op == "select":
+            walk(i.ops[1], through_load)
+            walk(i.ops[2], through_load)
+        elif i.op == "load":
+            walk(i.ops[0], True)
+        elif i.op == "call":
+            leaves.add(("call", str(i.callee)))
+        else:
+            leaves.add(("other", i.op))
+    cond = sw[0].cond
+    ld = cond.inst
+    while ld is not None and ld.op in ("zext", "sext", "trunc"):
+        ld = ld.ops[0].inst
+    if ld is None or ld.op != "load":
+        chk.unknown("V2.state-cell", "PT_BEGIN_FIBRE", "the switch does not test a loaded state")
+        return
+    walk(ld.ops[0], False)
+    statics = sorted(x[1] for x in leaves if x[0] == "static" and not x[2])
+    others = sorted(str(x) for x in leaves if x[0] in ("call", "other"))
+    f_arg = ("arg", fn.args[0].name)
+    if statics:
+        chk.ob("V2.state-cell", "PT_BEGIN_FIBRE(f)", False,
+               "the resume point is read through a pointer derived from the mutable static object %s, not only from f: which fibre's state a "
+               "body resumes from depends on what the scheduler dispatched last, so an entry point invoked directly with its own descriptor "
+               "continues at another fibre's resume point and overwrites it" % ", ".join(statics), "include/librfn/fibre.h", "PT_BEGIN_FIBRE")
+    elif others:
+        chk.unknown("V2.state-cell", "PT_BEGIN_FIBRE(f)", "the state pointer depends on %s" % ", ".join(others))
+    else:
+        chk.ob("V2.state-cell", "PT_BEGIN_FIBRE(f)", leaves == {f_arg},
+               "the resume point lives at a fixed offset in the descriptor the body is called with", "include/librfn/fibre.h", "PT_BEGIN_FIBRE")
 
 
 COND_MACROS = (("PT_WAIT_UNTIL", "PT_WAIT_UNTIL(%s);"), ("PT_EXIT_ON", "PT_EXIT_ON(%s);"), ("PT_FAIL_ON", "PT_FAIL_ON(%s);"))
@@ -697,6 +773,8 @@ def run_rules(chk, progs=None, limit=None):
             except AnalysisError as e:
                 chk.unknown("V2" if variant else "V1", "batch %d" % b0, "witness batch does not compile: %s" % str(e)[-400:])
                 continue
+            if variant and b0 == 0:
+                check_state_cell(chk, src)
             priv_off = 0
             if variant:
                 tid = m.di_by_name.get("fibre_t") or m.di_by_name.get("fibre")
